@@ -130,6 +130,7 @@ fn main() {
         "c13fse" => hufx::c13fse(rest),
         "zfexec" => zf::zfexec(rest),
         "seqrows" => zf::seqrows(rest),
+        "seqstream" => zf::seqstream(rest),
         "dictinfo" => zf::dictinfo(rest),
         "c09trained" => zf::c09trained(rest),
         "mkcorpus" => gen::mkcorpus(rest),
